@@ -369,7 +369,9 @@ class Pool(localbase):
     def disconnect(pool):
         con = pool.con
         pool.con = None
-        if con is not None: con.close()
+        if con is not None:
+            if pool.pid != os.getpid(): pool.forked_connections.append((con, pool.pid))
+            else: con.close()
 
 class Converter(object):
     EQ = 'EQ'
